@@ -1,1 +1,70 @@
 import Goflow.Spec.Sflow
+import Proofs.Lemmas.Fields
+/-!
+  C04 — sFlow v5 wire decoding is exact.
+-/
+namespace Goflow.C04
+open Goflow Goflow.Sflow Goflow.Spec.Sflow
+
+private theorem pad_length (n : Nat) : (pad n).length = padLen n := by simp [pad]
+
+/-- XDR strings / opaques: length, bytes and the padding to a multiple of four are consumed, so the
+    field that follows is read from the right place -/
+theorem xdrString_roundtrip (d rest : Bytes) (h : d.length < 2 ^ 32) :
+    readString (xdrOpaque d ++ rest) = .ok (d, rest) := by
+  unfold readString xdrOpaque u32
+  simp only [List.append_assoc]
+  rw [readU_enc _ (by simpa using h)]
+  simp only
+  rw [takeN_append d _ rfl]
+  simp only
+  congr 2
+  have : (4 - d.length % 4) % 4 = (pad d.length).length := by simp [pad, padLen]
+  rw [this]
+  simp
+
+/-- an agent / next-hop address (type + 4 or 16 bytes) -/
+theorem ip_roundtrip (ip rest : Bytes) (h : ip.length = 4 ∨ ip.length = 16) :
+    decodeIP (xdrAddr ip ++ rest) = .ok (ipv ip, ip, rest) := by
+  unfold decodeIP xdrAddr u32 ipv
+  rcases h with h | h
+  · simp only [h, if_true, List.append_assoc]
+    rw [readU_enc _ (by decide)]
+    simp [h]
+  · have : ¬ ip.length = 4 := by omega
+    simp only [this, if_false, List.append_assoc]
+    rw [readU_enc _ (by decide)]
+    simp [h]
+
+/-- Records of unknown type are skipped by their declared length: the loop hands exactly `len`
+    bytes to the record decoder and continues behind them, so the records that follow decode as if
+    the unknown one were not there. -/
+theorem unknown_record_skipped {α} (dec : Nat → Nat → Bytes → Res α) (n fmt : Nat) (body rest : Bytes)
+    (hf : fmt < 2 ^ 32) (hl : body.length < 2 ^ 32) (r : α) (hdec : dec fmt body.length body = .ok r) :
+    recordLoop dec (n + 1) (u32 fmt ++ u32 body.length ++ body ++ rest) =
+      match recordLoop dec n rest with
+      | .error e => .error e
+      | .ok rs => .ok (r :: rs) := by
+  conv => lhs; unfold recordLoop
+  have hlen : 8 ≤ (u32 fmt ++ u32 body.length ++ body ++ rest).length := by simp [u32]; omega
+  simp only [hlen, if_true]
+  have hfit : Fits [4, 4] [fmt, body.length] := by simp only [Fits, Nat.reducePow, and_true] at *; omega
+  have := readFields_enc [4, 4] [fmt, body.length] (body ++ rest) hfit
+  simp only [encFields, List.append_nil, List.append_assoc] at this
+  simp only [u32, List.append_assoc]
+  rw [this]
+  have hle : ¬ body.length > (body ++ rest).length := by simp
+  simp only [hle, if_false]
+  simp only [List.take_left', List.drop_left', hdec]
+  rfl
+
+/-- the unknown flow-record formats decode to a raw record holding exactly the declared bytes -/
+theorem unknown_flow_record (fmt len : Nat) (b : Bytes)
+    (h : fmt ∉ [1, 2, 3, 4, 1001, 1002, 1003, 1036, 1037, 1038]) :
+    decodeFlowRecord fmt len b = .ok ⟨fmt, len, .unknown b⟩ := by
+  simp only [List.mem_cons, List.not_mem_nil, or_false, not_or] at h
+  obtain ⟨h1, h2, h3, h4, h5, h6, h7, h8, h9, h10⟩ := h
+  unfold decodeFlowRecord layoutOf
+  simp [h1, h2, h3, h4, h5, h6, h7, h8, h9, h10]
+
+end Goflow.C04
